@@ -86,7 +86,7 @@ def make_corpus(tier, seed):
 def state_of(real):
     from checks.c03 import support, INDICES
     return {"contents": repr(W.canon_roots(real.roots)),
-            "dump": sorted(map(list, real.m.dump())),
+            "dump": sorted([E.norm_zero_text(a), E.norm_zero_text(b)] for a, b in real.m.dump()),
             "indices": {nm: sorted((k, sorted(v)) for k, v in support(getattr(real.m, nm)).items()) for nm in INDICES}}
 
 
@@ -184,7 +184,7 @@ def interpret(case):
             return [["build", "exc", type(ex).__name__]]
         if not E.is_ref(e):
             return [["build", "plain", repr(W.canon(e)) if not hasattr(e, "dtype") else E.show(e)]]
-        tr.append(["print", str(e)])
+        tr.append(["print", E.norm_zero_text(str(e))])
         tr.append(["deps", sorted(str(d) for d in e._get_dependencies())])
         tr.append(["self-equality", bool(e == e_again), bool(hash(e) == hash(e_again)), len({e, e_again})])
         deps = sorted(e._get_dependencies(), key=str)
@@ -199,14 +199,14 @@ def interpret(case):
             tr.append(["value", which, tval(e._get_value)])
         try:
             back = pickle.loads(pickle.dumps(e))
-            tr.append(["pickle", "ok", str(back), bool(back == e)])
+            tr.append(["pickle", "ok", E.norm_zero_text(str(back)), bool(back == e)])
         except RecursionError:
             tr.append(["pickle", "exc", "RecursionError"])
         except Exception as ex:
             tr.append(["pickle", "exc", type(ex).__name__])
         try:
             e2 = eval(str(e), {}, dict(refs))
-            tr.append(["reparse", "ok", str(e2), bool(e2 == e) if E.is_ref(e2) else "non-ref"])
+            tr.append(["reparse", "ok", E.norm_zero_text(str(e2)), bool(e2 == e) if E.is_ref(e2) else "non-ref"])
         except Exception as ex:
             tr.append(["reparse", "exc", type(ex).__name__])
         return tr
